@@ -44,6 +44,7 @@ type models struct {
 	modelAccess int
 	memLog      []string
 	// memguard buffers
+	edges map[string]int // caller>callee call counts among repo functions (for call-site-specific known findings)
 	// known classes registered on this path: label -> list
 	classes map[string][]knownClass
 	tags    []string
@@ -77,6 +78,7 @@ func newModels() *models {
 		faultBudget: map[string]int{},
 		faultCount:  map[string]int{},
 		classes:     map[string][]knownClass{},
+		edges:       map[string]int{},
 	}
 }
 
@@ -322,6 +324,14 @@ func (in *Interp) drawRandom(buf []Value) {
 		v := in.tb.Var(fmt.Sprintf("rnd_%d_%d", k, i), smt.BVSort(8))
 		draw[i] = BV{W: 8, T: v}
 		buf[i] = draw[i]
+	}
+	// ideal randomness: draws of at least 16 bytes never repeat
+	if len(draw) >= 16 {
+		for _, p := range in.m.rndDraws {
+			if len(p) == len(draw) {
+				in.assume(in.tb.Not(in.eqBytes(p, draw)))
+			}
+		}
 	}
 	in.m.rndDraws = append(in.m.rndDraws, draw)
 }
